@@ -307,7 +307,9 @@ SPECIAL = ["None", "none", "NONE", "nOnE", "Auto", "auto", "AUTO", "aUtO", "True
            "NaN", "Inf", "inf-inf", "inf*0", "1e999-1e999", "None None", "Auto 1", "1 None", "y", "t", "00", "01", "11"]
 JUNK = ["sin", "[1,2", "1 +", "()", "[]", "[[]]", "(())", "( )", "abc", "$x", "1.2.3", "0x10", "0b11", "1e", "++1", "--1",
         "\xb2", "1\xa0", "\xa01", "\x1c1", "1\x1f", ",", ";", ",,", "(,)", "[;]", ")(", "][", "(1", "1)", "(1]", "[1)",
-        "1,", ",1", "1__0", "_1", "1_", "+ 1", "\xe9", "1\xa02", "lambda: 1", "print", "{1}", "1 if 1 else 2", "-", "*", "="]
+        "1,", ",1", "1__0", "_1", "1_", "+ 1", "\xe9", "1\xa02", "lambda: 1", "print", "{1}", "1 if 1 else 2", "-", "*", "=",
+        # evaluation errors whose own text holds a '%' (the error message is built with %-formatting)
+        "dict()['%s']", "getattr(1,'%d')", "int('%s')", "dict()['%(a)s']", "5%", "%", "1%0"]
 # texts that are or become empty / unbalanced / operator-only (also for C16's converter stream)
 EMPTYISH = ["()", "[]", "( )", "[ ]", "(())", "([])", "[()]", "[[]]", "( ( ) )", "((  ))", '""', "''", '" "', '"" ""', '"()"', "'[]'",
             '"( )"', "(", ")", "[", "]", "((", "))", "(]", "[)", "([)]", ")(", "][", "(1", "1)", "[1,2", "1,2]", "(1,(2)", "+", "-", "*", "/",
@@ -445,6 +447,7 @@ class FromWords(Stream):
         self.rec = EvalRecorder(self.fp)
         converters.eval = self.rec
         self.masters = {}
+        self.copies = {}
         self.side = {}
 
     # -- generation
@@ -567,6 +570,17 @@ class FromWords(Stream):
             b = self.run_extract(viadoc)
             if a != b:
                 return ["variants-differ", a, b]
+        # the same definition after a pickle round trip / a deep copy (as freephil.interface and GUIs keep them): the declared
+        # type, its bounds and allow_none travel with the copy
+        k2 = json.dumps(ty)
+        cps = self.copies.get(k2)
+        if cps is None:
+            import copy, pickle
+            cps = self.copies[k2] = [pickle.loads(pickle.dumps(d)), copy.deepcopy(d)]
+        for how, d2 in zip(("pickle", "deepcopy"), cps):
+            c = self.run_extract(lambda d2=d2: d2.customized_copy(words=words).extract())
+            if c != a:
+                return ["variants-differ", a, [how, c]]
         return a
 
     # -- model
